@@ -133,12 +133,9 @@ Theorem C07_ino_consistent_pseudo_readdir : forall s c a plus cur size off lim p
 Proof. exact pseudo_readdir_numbers. Qed.
 
 (* the async twin (impl AsyncFileSystem for Vfs, ten methods): the same answer and the same backend calls as the sync
-   method, made through the backend's async method ([tagged]: method number + async_tag), for every operation except
-   getattr of a pseudo directory (which reaches no backend either way: see C14); so every theorem above about vfs_op
+   method, made through the backend's async method ([tagged]: method number + async_tag), for every one of them on every state; so every theorem above about vfs_op
    speaks about the async entry points too, and in particular every async call goes to the owner with its own inode *)
-Theorem C07_async_same : forall s c o a, has_async_twin o = true ->
-  (forall n id, o = OGetattr n -> get_real_rootfs s n <> Ok (SLeft id)) ->
-  vfs_async_op s c o a = tagged (vfs_op s c o a).
+Theorem C07_async_same : forall s c o a, has_async_twin o = true -> vfs_async_op s c o a = tagged (vfs_op s c o a).
 Proof. exact vfs_async_same. Qed.
 Theorem C07_async_calls : forall s c o a, has_async_twin o = true ->
   snd (vfs_async_op s c o a) = map tag_async (snd (vfs_op s c o a)).
